@@ -46,15 +46,15 @@ var longTrace = func() int { n, _ := strconv.Atoi(os.Getenv("VERIF_TRACE_LONG"))
 
 type explorer struct {
 	idleExecs, idleFires int64 // executions in which / times the idle rule fired a timer by default
-	cfg   Config
-	r     *enum.R
-	st    Stats
-	seen  map[[2]uint64][][2]int8
-	maxP  int
-	maxE  int
-	cache bool
-	stop  bool
-	nth   int64
+	cfg                  Config
+	r                    *enum.R
+	st                   Stats
+	seen                 map[[2]uint64][][2]int8
+	maxP                 int
+	maxE                 int
+	cache                bool
+	stop                 bool
+	nth                  int64
 }
 
 type replayData struct {
@@ -100,7 +100,7 @@ func Explore(r *enum.R, cfg Config) Stats {
 	for i, c := range ladder {
 		e.maxP, e.maxE = c.p, c.e
 		e.seen = map[[2]uint64][][2]int8{}
-		e.cache = !cfg.NoCache
+		e.cache = !cfg.NoCache && os.Getenv("VERIF_NOCACHE") == "" // VERIF_NOCACHE=1: development aid, full enumeration without happens-before pruning
 		last := i == len(ladder)-1
 		if last {
 			// coverage counters describe the final (largest) bound; the ladder runs are subsets
